@@ -20,17 +20,18 @@ Cfg(P, K, E) == {[pow |-> p, kinds |-> k, entries |-> e] : p \in P, k \in K, e \
 TO3 == <<"nil", "A", "B">>
 TO4 == <<"nil", "A", "B", "C">>
 
-\* quick: every single-kind proof map for 4 validators (3 power vectors), with signature-less entries
-\* for 3 validators; both kinds together for 2 validators
-C_quick == Cfg({<<1,1,1,1>>, <<2,2,2,1>>}, {PC}, {FALSE}) \cup Cfg({<<3,1,1,1>>}, {PV}, {FALSE})
+\* quick: every single-kind proof map for 4 validators (a total not divisible by 3, a heavy validator),
+\* with signature-less entries for 3 validators; both kinds together for 2 validators
+C_quick == Cfg({<<2,2,2,1>>}, {PC}, {FALSE}) \cup Cfg({<<3,1,1,1>>}, {PV}, {FALSE})
              \cup Cfg({<<1,1,2>>, <<2,2,3>>}, Single, {TRUE})
-             \cup Cfg({<<1,1>>, <<2,3>>}, Joint, {FALSE})
+             \cup Cfg({<<2,3>>}, Joint, {FALSE})
 \* as-is run (DoubleCount = TRUE): smallest spaces that contain the counterexamples
-C_asis == Cfg({<<1,3>>, <<1,1,2>>}, Single, {FALSE})   \* with TO4
+C_asis == Cfg({<<1,3>>}, Single, {FALSE}) \cup Cfg({<<1,1,2>>}, {PC}, {FALSE})   \* with TO4
 \* thorough
 C_single4 == Cfg(PV_n4 \cup PV_n4b, Single, {TRUE}) \cup Cfg(PV_n1 \cup PV_n2 \cup PV_n3, Single, {TRUE})
-C_joint   == Cfg(PV_n2, Joint, {TRUE}) \cup Cfg({<<1,1,1>>, <<1,1,2>>, <<2,2,3>>}, Joint, {FALSE})
-C_four    == Cfg({<<1,1,1,1>>, <<2,2,2,1>>}, {PC}, {FALSE}) \cup Cfg(PV_n3, Single, {TRUE})   \* with TO4
+C_thoroughA == C_single4 \cup C_quick
+C_joint   == Cfg(PV_n2, Joint, {TRUE}) \cup Cfg({<<1,1,2>>}, Joint, {FALSE})
+C_four    == Cfg({<<1,1,1,1>>}, {PC}, {FALSE}) \cup Cfg(PV_n3, Single, {TRUE})   \* with TO4
 \* simulation (behaviour export): both kinds, 4 validators
 C_sim == Cfg(PV_n4 \cup PV_n4b, Joint, {TRUE})
 =============================================================================
